@@ -13,8 +13,16 @@ func pt(name string, p unsafe.Pointer) {
 	vrt.AtomicSync(uintptr(p))
 }
 
-func AddInt32(addr *int32, delta int32) int32 { pt("AddInt32", unsafe.Pointer(addr)); *addr += delta; return *addr }
-func AddInt64(addr *int64, delta int64) int64 { pt("AddInt64", unsafe.Pointer(addr)); *addr += delta; return *addr }
+func AddInt32(addr *int32, delta int32) int32 {
+	pt("AddInt32", unsafe.Pointer(addr))
+	*addr += delta
+	return *addr
+}
+func AddInt64(addr *int64, delta int64) int64 {
+	pt("AddInt64", unsafe.Pointer(addr))
+	*addr += delta
+	return *addr
+}
 func AddUint32(addr *uint32, delta uint32) uint32 {
 	pt("AddUint32", unsafe.Pointer(addr))
 	*addr += delta
@@ -30,18 +38,28 @@ func AddUintptr(addr *uintptr, delta uintptr) uintptr {
 	*addr += delta
 	return *addr
 }
-func LoadInt32(addr *int32) int32       { pt("LoadInt32", unsafe.Pointer(addr)); return *addr }
-func LoadInt64(addr *int64) int64       { pt("LoadInt64", unsafe.Pointer(addr)); return *addr }
-func LoadUint32(addr *uint32) uint32    { pt("LoadUint32", unsafe.Pointer(addr)); return *addr }
-func LoadUint64(addr *uint64) uint64    { pt("LoadUint64", unsafe.Pointer(addr)); return *addr }
-func LoadUintptr(addr *uintptr) uintptr { pt("LoadUintptr", unsafe.Pointer(addr)); return *addr }
-func StoreInt32(addr *int32, v int32)   { pt("StoreInt32", unsafe.Pointer(addr)); *addr = v }
-func StoreInt64(addr *int64, v int64)   { pt("StoreInt64", unsafe.Pointer(addr)); *addr = v }
-func StoreUint32(addr *uint32, v uint32) { pt("StoreUint32", unsafe.Pointer(addr)); *addr = v }
-func StoreUint64(addr *uint64, v uint64) { pt("StoreUint64", unsafe.Pointer(addr)); *addr = v }
+func LoadInt32(addr *int32) int32           { pt("LoadInt32", unsafe.Pointer(addr)); return *addr }
+func LoadInt64(addr *int64) int64           { pt("LoadInt64", unsafe.Pointer(addr)); return *addr }
+func LoadUint32(addr *uint32) uint32        { pt("LoadUint32", unsafe.Pointer(addr)); return *addr }
+func LoadUint64(addr *uint64) uint64        { pt("LoadUint64", unsafe.Pointer(addr)); return *addr }
+func LoadUintptr(addr *uintptr) uintptr     { pt("LoadUintptr", unsafe.Pointer(addr)); return *addr }
+func StoreInt32(addr *int32, v int32)       { pt("StoreInt32", unsafe.Pointer(addr)); *addr = v }
+func StoreInt64(addr *int64, v int64)       { pt("StoreInt64", unsafe.Pointer(addr)); *addr = v }
+func StoreUint32(addr *uint32, v uint32)    { pt("StoreUint32", unsafe.Pointer(addr)); *addr = v }
+func StoreUint64(addr *uint64, v uint64)    { pt("StoreUint64", unsafe.Pointer(addr)); *addr = v }
 func StoreUintptr(addr *uintptr, v uintptr) { pt("StoreUintptr", unsafe.Pointer(addr)); *addr = v }
-func SwapInt32(addr *int32, v int32) int32 { pt("SwapInt32", unsafe.Pointer(addr)); o := *addr; *addr = v; return o }
-func SwapInt64(addr *int64, v int64) int64 { pt("SwapInt64", unsafe.Pointer(addr)); o := *addr; *addr = v; return o }
+func SwapInt32(addr *int32, v int32) int32 {
+	pt("SwapInt32", unsafe.Pointer(addr))
+	o := *addr
+	*addr = v
+	return o
+}
+func SwapInt64(addr *int64, v int64) int64 {
+	pt("SwapInt64", unsafe.Pointer(addr))
+	o := *addr
+	*addr = v
+	return o
+}
 func SwapUint32(addr *uint32, v uint32) uint32 {
 	pt("SwapUint32", unsafe.Pointer(addr))
 	o := *addr
@@ -90,45 +108,59 @@ func CompareAndSwapUint64(addr *uint64, old, new uint64) bool {
 // Typed atomics (Go 1.19).
 type Int32 struct{ v int32 }
 
-func (x *Int32) Load() int32           { return LoadInt32(&x.v) }
-func (x *Int32) Store(v int32)         { StoreInt32(&x.v, v) }
-func (x *Int32) Add(d int32) int32     { return AddInt32(&x.v, d) }
-func (x *Int32) Swap(v int32) int32    { return SwapInt32(&x.v, v) }
+func (x *Int32) Load() int32                    { return LoadInt32(&x.v) }
+func (x *Int32) Store(v int32)                  { StoreInt32(&x.v, v) }
+func (x *Int32) Add(d int32) int32              { return AddInt32(&x.v, d) }
+func (x *Int32) Swap(v int32) int32             { return SwapInt32(&x.v, v) }
 func (x *Int32) CompareAndSwap(o, n int32) bool { return CompareAndSwapInt32(&x.v, o, n) }
 
 type Int64 struct{ v int64 }
 
-func (x *Int64) Load() int64           { return LoadInt64(&x.v) }
-func (x *Int64) Store(v int64)         { StoreInt64(&x.v, v) }
-func (x *Int64) Add(d int64) int64     { return AddInt64(&x.v, d) }
-func (x *Int64) Swap(v int64) int64    { return SwapInt64(&x.v, v) }
+func (x *Int64) Load() int64                    { return LoadInt64(&x.v) }
+func (x *Int64) Store(v int64)                  { StoreInt64(&x.v, v) }
+func (x *Int64) Add(d int64) int64              { return AddInt64(&x.v, d) }
+func (x *Int64) Swap(v int64) int64             { return SwapInt64(&x.v, v) }
 func (x *Int64) CompareAndSwap(o, n int64) bool { return CompareAndSwapInt64(&x.v, o, n) }
 
 type Uint32 struct{ v uint32 }
 
-func (x *Uint32) Load() uint32          { return LoadUint32(&x.v) }
-func (x *Uint32) Store(v uint32)        { StoreUint32(&x.v, v) }
-func (x *Uint32) Add(d uint32) uint32   { return AddUint32(&x.v, d) }
-func (x *Uint32) Swap(v uint32) uint32  { return SwapUint32(&x.v, v) }
+func (x *Uint32) Load() uint32                    { return LoadUint32(&x.v) }
+func (x *Uint32) Store(v uint32)                  { StoreUint32(&x.v, v) }
+func (x *Uint32) Add(d uint32) uint32             { return AddUint32(&x.v, d) }
+func (x *Uint32) Swap(v uint32) uint32            { return SwapUint32(&x.v, v) }
 func (x *Uint32) CompareAndSwap(o, n uint32) bool { return CompareAndSwapUint32(&x.v, o, n) }
 
 type Uint64 struct{ v uint64 }
 
-func (x *Uint64) Load() uint64          { return LoadUint64(&x.v) }
-func (x *Uint64) Store(v uint64)        { StoreUint64(&x.v, v) }
-func (x *Uint64) Add(d uint64) uint64   { return AddUint64(&x.v, d) }
-func (x *Uint64) Swap(v uint64) uint64  { return SwapUint64(&x.v, v) }
+func (x *Uint64) Load() uint64                    { return LoadUint64(&x.v) }
+func (x *Uint64) Store(v uint64)                  { StoreUint64(&x.v, v) }
+func (x *Uint64) Add(d uint64) uint64             { return AddUint64(&x.v, d) }
+func (x *Uint64) Swap(v uint64) uint64            { return SwapUint64(&x.v, v) }
 func (x *Uint64) CompareAndSwap(o, n uint64) bool { return CompareAndSwapUint64(&x.v, o, n) }
 
 type Bool struct{ v uint32 }
 
-func (x *Bool) Load() bool   { return LoadUint32(&x.v) != 0 }
-func (x *Bool) Store(v bool) { if v { StoreUint32(&x.v, 1) } else { StoreUint32(&x.v, 0) } }
+func (x *Bool) Load() bool { return LoadUint32(&x.v) != 0 }
+func (x *Bool) Store(v bool) {
+	if v {
+		StoreUint32(&x.v, 1)
+	} else {
+		StoreUint32(&x.v, 0)
+	}
+}
+func b2u(v bool) uint32 {
+	if v {
+		return 1
+	}
+	return 0
+}
+func (x *Bool) Swap(v bool) bool              { return SwapUint32(&x.v, b2u(v)) != 0 }
+func (x *Bool) CompareAndSwap(o, n bool) bool { return CompareAndSwapUint32(&x.v, b2u(o), b2u(n)) }
 
 // Pointer mirrors atomic.Pointer[T].
 type Pointer[T any] struct{ p *T }
 
-func (x *Pointer[T]) Load() *T { pt("Pointer.Load", unsafe.Pointer(x)); return x.p }
+func (x *Pointer[T]) Load() *T   { pt("Pointer.Load", unsafe.Pointer(x)); return x.p }
 func (x *Pointer[T]) Store(v *T) { pt("Pointer.Store", unsafe.Pointer(x)); x.p = v }
 func (x *Pointer[T]) Swap(v *T) *T {
 	pt("Pointer.Swap", unsafe.Pointer(x))
@@ -169,4 +201,15 @@ func (x *Value) CompareAndSwap(old, new interface{}) bool {
 		return true
 	}
 	return false
+}
+
+// Uintptr mirrors atomic.Uintptr.
+type Uintptr struct{ v uint64 }
+
+func (x *Uintptr) Load() uintptr          { return uintptr(LoadUint64(&x.v)) }
+func (x *Uintptr) Store(v uintptr)        { StoreUint64(&x.v, uint64(v)) }
+func (x *Uintptr) Add(d uintptr) uintptr  { return uintptr(AddUint64(&x.v, uint64(d))) }
+func (x *Uintptr) Swap(v uintptr) uintptr { return uintptr(SwapUint64(&x.v, uint64(v))) }
+func (x *Uintptr) CompareAndSwap(o, n uintptr) bool {
+	return CompareAndSwapUint64(&x.v, uint64(o), uint64(n))
 }
